@@ -36,11 +36,13 @@ use buffers::trim_byte;
 //@@ include write_prelude
 //@@ include request_prelude
 //@@ include request_code
+//@@ include settings_code
 }
 //@@ include errors_tail
 //@@ include http_tail
 //@@ include body_tail
 //@@ include request_tail
 impl Read for BaseStream { fn read(&mut self, b: &mut [u8]) -> io::Result<usize> { unimplemented!() } }
+impl Clone for BaseSettings { fn clone(&self) -> Self { unimplemented!() } }
 impl Write for BaseStream { fn write(&mut self, b: &[u8]) -> io::Result<usize> { unimplemented!() } fn flush(&mut self) -> io::Result<()> { unimplemented!() } }
 fn main(){}
